@@ -22,13 +22,12 @@ from vp import coqrun, sx
 from vp.jets import JetSer
 
 STATIC = ["C13_" + n for n in (
-    "stokes_pointwise", "green_pointwise", "planar_surface_element", "flux_boundary_planar", "flux_curve_normalisation",
+    "stokes_pointwise", "green_pointwise", "planar_surface_element", "flux_boundary_planar", "flux_boundary_three_components",
+    "flux_curve_normalisation",
     "cross3_antisym", "curve_normal_reverses", "curve_normal_is_T_cross_k", "reparam_pointwise", "orientation_sign",
     "gauss_pointwise_cart", "gauss_pointwise_cyl", "gauss_pointwise_sph", "volume_integrand_code_eq", "partial",
     "reparam_integral")]
 
-KNOWN_KEY_DIV = "C13:flux_across_surface_boundary:divergence-not-evaluated-on-surface"
-KNOWN_KEY_SUBS = "C13:subs_with_point:sequential-substitution-of-base-scalars"
 
 PREAMBLE = """From Coq Require Import ZArith Reals List Lra Lia Field.
 From VP Require Import Model.DiffAlg Model.Ops Model.Forms Proofs.OpsProofs.
@@ -215,12 +214,13 @@ def generic_lemmas(ctx):
                 f"flux_across_curve along the {'uv'[i]}-lines of a planar surface, {m}-component field")
             if r:
                 broken.append((f"corr_integrand_fluxform_{'AB'[i]}_{m}", "flux_across_curve", r))
-        # flux_across_surface_boundary: generic field (what the divergence theorem needs: (div F)(S(u,v)) |S_u x S_v|)
+        # flux_across_surface_boundary: generic field, (div F)(S(u,v)) |S_u x S_v|.  For m = 3 the code takes the 3-D
+        # divergence at z = 0 (model flux_boundary_integrand rho 3 2; C13_flux_boundary_three_components says what that means)
         with recording() as cap:
             A.flux_across_surface_boundary(fld, surf2, (U, la, lb), (V, lc, ld))
         e, lims = cap[-1]
         expect_limits(f"flux_boundary_{m}", lims, ((U, la, lb), (V, lc, ld)))
-        r = add(f"corr_integrand_flux_boundary_{m}", ser([U, V], 2), e, f"flux_boundary_integrand rho {min(m, 2)} 2",
+        r = add(f"corr_integrand_flux_boundary_{m}", ser([U, V], 2), e, f"flux_boundary_integrand rho {m} 2",
             f"flux_across_surface_boundary, generic {m}-component field on a parametrised planar surface", proof="c13_tie_sqrt.")
         if r:
             broken.append((f"corr_integrand_flux_boundary_{m}", "flux_across_surface_boundary", r))
@@ -520,6 +520,9 @@ def gen_cases(rng, tier_quick, only=None):
         surf = [U * cos(V), 2 * U * sin(V)] + ([zc] if zc is not None else [])
         add({"kind": "swap_surface", "field": [S(e) for e in rand_field(rng, 3)], "surface": [S(e) for e in surf],
             "limits": [["0", "1"], ["0", S(2 * pi)]], "linear_field": [S(e) for e in rand_field(rng, 2, lin=True)]})
+    # regressions of the two repaired defects (fixed cases first, then seeded ones)
+    for c in div_on_surface_cases(rng) + exchanged_base_scalar_cases(rng):
+        add(c)
     # Green: ellipse vs non-parametrised region with curved limits (as analysis_test does), polynomial field
     a_, b_ = rng.choice([(1, 1), (2, 1), (3, 3)])
     add({"kind": "green", "field": [S(e) for e in rand_field(rng, 2)], "boundary": circle_boundary(a_, b_),
@@ -545,26 +548,29 @@ def gen_cases(rng, tier_quick, only=None):
     return cases
 
 
-def div_not_composed_probe(rng):
-    """The search behind the known finding: parametrised disc, field with non-constant divergence."""
-    cands = [["x**2", "0"], ["a*x*y", "y**2"], ["x**3 + y", "b*x*y"]]
+def div_on_surface_cases(rng):
+    """Parametrised disc / ellipse, field of NON-constant divergence: flux_across_surface_boundary must evaluate the
+    divergence on the surface (repaired in b8d7c4a).  (x^3, y) on the unit disc: both paths give 7*pi/4."""
     out = []
-    for f in cands:
-        out.append({"kind": "green", "id": f"green:param-nonconst-div:{f}", "field": f, "boundary": circle_boundary(1, 1),
-            "region": {"type": "parametrised", "surface": [S(U * cos(V)), S(U * sin(V))], "limits": [["0", "1"], ["0", S(2 * pi)]]}})
+    fields = [(["x**3", "y"], 1, 1), (["x**2", "0"], 1, 1),
+        ([S(e) for e in rand_field(rng, 2)], *rng.choice([(1, 1), (2, 1), (1, 3)]))]
+    for f, a_, b_ in fields:
+        out.append({"kind": "green", "field": f, "boundary": circle_boundary(a_, b_),
+            "region": {"type": "parametrised", "surface": [S(a_ * U * cos(V)), S(b_ * U * sin(V))],
+                "limits": [["0", "1"], ["0", S(2 * pi)]]}})
     return out
 
 
-def sequential_subs_probe():
+def exchanged_base_scalar_cases(rng):
     """Surface written through the base scalars in exchanged order, X = y, Y = x (a reflected rectangle):
-    VectorField.from_vector(...).apply substitutes the base scalars one after the other."""
+    the substitution of the base scalars must be simultaneous (repaired in 137cb62; (0, x^2, 0): both paths give -4)."""
     def seg(xe, ye, t0, t1):
         return {"trajectory": [S(xe), S(ye)], "limits": [S(t0), S(t1)]}
     zero = sympy.Integer(0)
     boundary = [seg(zero, T, 0, 1), seg(T, sympy.Integer(1), 0, 2), seg(sympy.Integer(2), T, 1, 0), seg(T, zero, 2, 0)]
-    return [{"kind": "stokes", "params": "base_scalars", "id": f"stokes:swapped-base-scalars:{f}", "field": f,
+    return [{"kind": "stokes", "params": "base_scalars", "field": f,
         "surface": ["y", "x"], "limits": [["0", "1"], ["0", "2"]], "boundary": boundary}
-        for f in (["0", "x**2", "0"], ["a*y**2", "x*y", "0"])]
+        for f in (["0", "x**2", "0"], ["a*y**2", "x*y", "0"], [S(e) for e in rand_field(rng, 3)])]
 
 
 # ---------------------------------------------------------------------------------------------
@@ -639,35 +645,10 @@ def run(ctx):
         ctx.sample({"e2e_case": cases[0]})
     ctx.log(f"end-to-end: {n_ok}/{len(cases)} agree")
 
-    # 2b. probe: surface given through the base scalars in exchanged order
-    for c in sequential_subs_probe():
-        try:
-            okc, detail = run_case(c)
-        except Exception as e:  # pylint: disable=broad-except
-            okc, detail = False, {"exception": f"{type(e).__name__}: {e}"}
-        ctx.evaluated(1, 1)
-        if not okc:
-            report_case(ctx, c, detail, key=KNOWN_KEY_SUBS)
-            break
-
     # 3. decide failed / untranslatable ties
     failed = [(lm.name, lm.item, res[lm.name], lm.statement) for lm in lemmas if res.get(lm.name) != "ok"]
     failed += [(n, f, "untranslatable: " + r, "") for n, f, r in broken]
     for name, item, err, st in failed:
-        if "flux_boundary" in name and "linear" not in name:
-            # what the divergence theorem needs is (div F) o S; search for a concrete field where the library's result is wrong
-            hit = False
-            for c in div_not_composed_probe(ctx.rng):
-                try:
-                    okc, detail = run_case(c)
-                except Exception as e:  # pylint: disable=broad-except
-                    okc, detail = False, {"exception": f"{type(e).__name__}: {e}"}
-                if not okc:
-                    report_case(ctx, c, detail, key=KNOWN_KEY_DIV)
-                    hit = True
-                    break
-            if hit:
-                continue
         func = next((f for f in ("circulation_along_surface_boundary", "circulation_along_curve", "flux_across_surface_boundary",
             "flux_across_surface", "flux_across_curve", "flux_across_volume_boundary") if f in item), None)
         if func in bad_funcs:
